@@ -15,7 +15,7 @@ FUNCTIONS = ['btcc main pipeline', 'Value::parse_args (argv form and string form
              'CScript::operator<<(vector)', 'CScriptNum::serialize', 'GetOpCode', 'TryHex', 'HexStr', 'atoll/snprintf/strcmp (stubs, precise)']
 ASSUMPTIONS = ['allocation never fails', 'libc atoll/snprintf/strcmp/strndup are modelled precisely in Python (engine/libc.py)', 'a hex literal denotes a push of exactly its bytes in minimal-push form; a decimal literal the minimal push of the number',
                'ambiguous digit-only strings are numbers (documented)', 'inline function forms name(arg) are C14']
-OUTSIDE = ['hex literals longer than 8 bytes except the 75/76 and 255/256 emission boundaries', 'nesting deeper than 3', 'whitespace/comment variants inside brackets beyond single spaces']
+OUTSIDE = ['decimal literals with more than 4 symbolic digits (18-19 symbolic digits: solver unknown after 30 s on the x10 chains; the widest literals are covered as concrete boundary values)', 'hex literals longer than 8 bytes except the 75/76 and 255/256 emission boundaries', 'nesting deeper than 3', 'whitespace/comment variants inside brackets beyond single spaces']
 BOUNDS = 'emission: data lengths 0..6,75,76,255,256,520 (all bytes symbolic), every int64; tokens: 0x+{0,1,2,3,4,5,8} symbolic bytes, bare hex of 1,2,4 bytes, decimals of 1-4 symbolic digits (+sign), every opcode name in both spellings; sequences of up to 3 tokens; bracket nesting 1..3 with symbolic payloads'
 
 def setup(E):
@@ -115,7 +115,9 @@ def obligations(tier, seed):
         for sg in (0, 1): add([('dec', nd, sg)])
     for lit, want in (('0', [0]), ('16', [0x60]), ('17', [1, 17]), ('-1', [0x4f]), ('127', [1, 127]), ('128', [2, 128, 0]), ('255', [2, 255, 0]), ('256', [2, 0, 1]), ('32767', [2, 255, 127]), ('32768', [3, 0, 128, 0]),
                       ('2147483647', [4, 255, 255, 255, 127]), ('2147483648', [5, 0, 0, 0, 128, 0]), ('-2147483648', [5, 0, 0, 0, 128, 128]), ('9223372036854775807', [8] + [255] * 7 + [127]),
-                      ('515293', [3, 0xdd, 0xdc, 0x07]), ('1234', [2, 0xd2, 0x04])):
+                      ('515293', [3, 0xdd, 0xdc, 0x07]), ('1234', [2, 0xd2, 0x04]),
+                      ('-9223372036854775807', [8] + [255] * 7 + [255]), ('-1000000000000000000', [8] + list((10**18).to_bytes(8, 'little'))[:7] + [0x0d | 0x80]), ('-999999999999999999', [8] + list((10**18 - 1).to_bytes(8, 'little'))[:7] + [0x0d | 0x80]),
+                      ('-9223372036854775808', [9] + [0] * 7 + [0x80, 0x80]), ('1000000000000000000', [8] + list((10**18).to_bytes(8, 'little')))):
         add([('lit', lit, want)])
     names = sorted(C16.NAMES)
     for n in names:
